@@ -248,6 +248,21 @@ fn configure_child(c: &mut Command, a: &Args, k: u64, abs_files: &[String], own_
         c.env("RUST_BACKTRACE", b);
     }
     c.env(format!("DET_{:x}", r.next()), format!("{:x}", r.next()));
+    if k % 2 == 1 {
+        // what a build script sees when cargo cross-compiles (and a few tool conventions): none of it is an input of the generator
+        for (key, val) in [
+            ("CARGO_CFG_TARGET_ARCH", "wasm32"), ("CARGO_CFG_TARGET_OS", "unknown"), ("CARGO_CFG_TARGET_FAMILY", "wasm"),
+            ("CARGO_CFG_TARGET_POINTER_WIDTH", "32"), ("CARGO_CFG_TARGET_ENDIAN", "big"), ("CARGO_CFG_WINDOWS", ""), ("CARGO_CFG_TARGET_ENV", "msvc"),
+            ("TARGET", "wasm32-unknown-unknown"), ("HOST", "x86_64-pc-windows-msvc"), ("PROFILE", "release"), ("OPT_LEVEL", "3"), ("DEBUG", "false"),
+            ("NUM_JOBS", "1"), ("OUT_DIR", "/nonexistent/out"), ("CARGO_MANIFEST_DIR", "/nonexistent/crate"), ("CARGO_PKG_NAME", "x"),
+            ("CARGO_FEATURE_SERDE", "1"), ("CARGO_FEATURE_GLAM", "1"), ("RUSTFMT", "/nonexistent/rustfmt"), ("RUSTC", "/nonexistent/rustc"),
+            ("CARGO", "/nonexistent/cargo"), ("RUSTFLAGS", "-C debug-assertions"), ("CARGO_ENCODED_RUSTFLAGS", "--cfg\u{1f}x"), ("RUST_LOG", "trace"),
+            ("NO_COLOR", "1"), ("CLICOLOR_FORCE", "1"), ("TERM", "dumb"), ("COLUMNS", "20"), ("CI", "true"), ("SOURCE_DATE_EPOCH", "0"),
+            ("WGSL_TO_WGPU_RUSTFMT", "0"), ("WGPU_BACKEND", "gl"), ("NAGA_VALIDATE", "0"), ("TZ", "Pacific/Kiritimati"),
+        ] {
+            c.env(key, val);
+        }
+    }
     c.current_dir(&cwd);
 }
 
